@@ -50,7 +50,7 @@ PENDING = {}
 
 COMMON = (" Bundles: every call from every state reachable within <=4 slots (generation-aware BFS; thorough <=4/GenCap 2 and <=5), from every ordered forest"
           " up to 7 nodes built canonically (thorough 8), and from every forest up to 6 nodes after each possible remove / remove_subtree followed by recycling"
-          " all freed slots (thorough 7). Mechanism specifications (spec/mechanisms: Links, ArenaImpl, Stamp, FreeList, Walk, DEIter, IndentWriter, Readers) are"
+          " all freed slots (thorough 7). Mechanism specifications (spec/mechanisms: Links, ArenaImpl, Stamp, FreeList, CloneFrom, Walk, DEIter, IndentWriter, Readers) are"
           " model-checked to refine the abstract specification. Beyond the bounds of the model, size probes of the implementation (a chain of 300 000 levels,"
           " sibling lists of 700 nodes, 110 000 generations of one slot, capacities of 600 / 1100, in a child process on small stacks) check the values that the"
           " size alone determines; they are drivers of the implementation, not model results.")
